@@ -293,6 +293,9 @@ pub fn run(ctx: &Ctx) {
         v
     }, check_kdf);
 
+    let kh: Vec<usize> = ctx.tier.pick(vec![(1usize << 17) + 1], vec![(1 << 20) + 1, (1 << 21) + 32, 32 * 65537 + 5]);
+    ctx.listed("kdf_huge_klen", "util::kdf at a few very large klen (counter beyond 2^16 blocks in the thorough tier)", move || kh.iter().map(|k| KdfCase { z_len: 64, z_seed: *k as u64, klen: *k }).collect::<Vec<_>>(), check_kdf);
+
     let kmax = ctx.tier.pick(1usize << 13, 1usize << 16);
     ctx.generated("kdf_generated", "util::kdf for random |Z| 0..=200 and klen up to 2^13 / 2^16 (multiples of 32 favoured)", ctx.tier.pick(3_000, 30_000), move || {
         (0..=200usize, any::<u64>(), prop_oneof![2 => 1..=400usize, 1 => (1..=(kmax / 32)).prop_map(|b| b * 32), 1 => 1..=kmax]).prop_map(|(z_len, z_seed, klen)| KdfCase { z_len, z_seed, klen })
